@@ -91,6 +91,38 @@ def has_shared(e):
     return False
 
 
+def shared_rewritable(e):
+    """Does some object that is referenced more than once hold (or is it)
+    something whose node yatiml rewrites in place when loading - a class
+    instance, enum member, string-like object or Path?  Only then can the
+    alias mechanism of the known finding be the cause of a failure."""
+    targets = set()
+    index = {}
+
+    def walk(x):
+        if isinstance(x, dict):
+            if '$shared' in x:
+                targets.add(x['$shared'])
+            if 'id' in x and any(k in x for k in ('$inst', '$m', '$l')):
+                index[x['id']] = x
+            for y in x.values():
+                walk(y)
+        elif isinstance(x, list):
+            for y in x:
+                walk(y)
+    walk(e)
+
+    def rewritable(x):
+        if isinstance(x, dict):
+            if any(k in x for k in ('$inst', '$enum', '$strlike', '$p')):
+                return True
+            return any(rewritable(y) for y in x.values())
+        if isinstance(x, list):
+            return any(rewritable(y) for y in x)
+        return False
+    return any(rewritable(index.get(t)) for t in targets)
+
+
 def count_features(ctx, v):
     for s in plain.walk_strings(D_plain(v)):
         ctx.count('lookalike_strings_roundtripped')
@@ -166,7 +198,9 @@ def run_value(ctx, spec, t, v):
                 v2 = unshare(m, v)
                 t2, k2, x2 = roundtrip(m, spec, t, v2)
                 if k2 == 'ok' and V.vsame(x2, v2):
-                    mech = ' only-with-shared-objects(alias-mechanism)'
+                    mech = ' only-with-shared-objects(alias-mechanism)' \
+                        if shared_rewritable(enc) else \
+                        ' only-with-shared-plain-data'
             except Exception:
                 pass
         ctx.violation('C05 dumps-raised %s %s%s' % (
@@ -202,7 +236,9 @@ def run_value(ctx, spec, t, v):
                 v2 = unshare(m, v)
                 t2, k2, x2 = roundtrip(m, spec, t, v2)
                 if k2 == 'ok' and V.vsame(x2, v2):
-                    mech = ' only-with-shared-objects(alias-mechanism)'
+                    mech = ' only-with-shared-objects(alias-mechanism)' \
+                        if shared_rewritable(enc) else \
+                        ' only-with-shared-plain-data'
             except Exception:
                 pass
         if kind == 'err':
@@ -287,7 +323,24 @@ def shard(ctx):
         share = 0.5 if rng.random() < 0.25 else 0.0
         for t, v in c06.gen_values(ctx, spec, m, 5, share=share):
             run_value(ctx, spec, t, v)
+    for _ in range(ctx.budget(1500, 20000)):
+        run_defaults_family(ctx, rng)
     spec0 = {'classes': [], 'doc_type': 'any'}
+    xspec = {'classes': [{'name': 'X1', 'kind': 'plain', 'extra': True,
+                          'params': [{'name': 'x1_id', 'type': 'int'},
+                                     {'name': 'x1_any', 'type': 'any'}]}],
+             'doc_type': ['cls', 'X1']}
+    xm = H.model_of(xspec)
+    for _ in range(ctx.budget(1500, 20000)):
+        v = shared_plain(rng)
+        ctx.count('shared_plain_values')
+        run_value(ctx, spec0, 'any', v)
+        run_value(ctx, spec0, ['dict', 'str', 'any'], {'k': v})
+        import collections
+        obj = xm.classes['X1'](x1_id=1, x1_any=v,
+                               _yatiml_extra=collections.OrderedDict(
+                                   [('e', shared_plain(rng))]))
+        run_value(ctx, H.clean_spec(xspec), ['cls', 'X1'], obj)
     for _ in range(ctx.budget(8000, 100000)):
         v = plain.rand_plain(rng, depth=3, classes=('look', 'uni'),
                              finite=False, dates=True)
@@ -303,6 +356,80 @@ def shard(ctx):
                      (['opt', 'str'], s),
                      (['union', 'int', 'str', 'float', 'bool'], s)):
             run_value(ctx, spec0, t, v)
+
+
+def defaults_family(rng):
+    """Sibling classes that inherit one _yatiml_defaults dict from their
+    base, redefine the default of a shared parameter and each remove their
+    own defaults when sweetening; plus a sibling that inherits __init__."""
+    pool = [1, 2, 3, 5]
+    base = {'name': 'B0', 'kind': 'plain', 'abc': True,
+            'params': [{'name': 'tag', 'type': 'str'},
+                       {'name': 'width', 'type': 'int', 'default': 1},
+                       {'name': 'note', 'type': ['opt', 'str'],
+                        'default': None}],
+            'defaults_override': rng.choice([{'zz_unused': 1},
+                                             {'note': 'n/a'}])}
+    classes = [base]
+    for i, d in enumerate(rng.sample(pool, rng.randint(2, 3))):
+        k = {'name': 'Kid%d' % i, 'kind': 'plain', 'bases': ['B0'],
+             'params': [{'name': 'tag', 'type': 'str'},
+                        {'name': 'kid%d_id' % i, 'type': 'int'},
+                        {'name': 'width', 'type': 'int', 'default': d},
+                        {'name': 'note', 'type': ['opt', 'str'],
+                         'default': None}],
+             'sweeten': [['remove_defaults']], 'savorize': [['record']]}
+        if rng.random() < 0.3:
+            k['defaults_override'] = {'note': 'kid%d' % i}
+        classes.append(k)
+    return {'classes': classes, 'doc_type': ['list', ['cls', 'B0']],
+            'profile': 'defaults-family'}
+
+
+def run_defaults_family(ctx, rng):
+    spec = defaults_family(rng)
+    try:
+        m = H.model_of(spec)
+    except Exception as e:
+        ctx.note('defaults family: %r' % (e,))
+        return
+    spec = H.clean_spec(spec)
+    kids = [c for c in spec['classes'] if c['name'] != 'B0']
+    objs = []
+    for _ in range(rng.randint(2, 5)):
+        c = rng.choice(kids)
+        i = c['name'][3:]
+        kw = {'tag': 't', 'kid%s_id' % i: rng.randint(0, 9)}
+        if rng.random() < 0.8:
+            kw['width'] = rng.choice([1, 2, 3, 5])
+        if rng.random() < 0.5:
+            kw['note'] = rng.choice(['n/a', 'kid0', 'kid1', 'x', None])
+        objs.append(m.classes[c['name']](**kw))
+    ctx.count('defaults_family_values')
+    # one document with all of them, then each alone (order of first use)
+    run_value(ctx, spec, spec['doc_type'], objs)
+    for o in objs:
+        run_value(ctx, spec, ['cls', type(o).__name__], o)
+
+
+def shared_plain(rng):
+    """Plain data in which one list / dict object occurs more than once
+    (dumped with an anchor and aliases; all uses are plain, so the alias
+    mechanism of the known finding does not apply)."""
+    sub = plain.rand_plain(rng, depth=1, classes=('look',), finite=True,
+                           dates=False)
+    if not isinstance(sub, (list, dict)) or not sub:
+        sub = [1, 'x', [2]] if rng.random() < 0.5 else {'k': [1, 2]}
+    shape = rng.randrange(5)
+    if shape == 0:
+        return [sub, sub]
+    if shape == 1:
+        return {'a': sub, 'b': [sub, 1]}
+    if shape == 2:
+        return {'pre': {'x': sub}, 'post': {'y': [sub]}}
+    if shape == 3:
+        return [[sub], {'k': sub}, sub]
+    return {'a': [1, sub], 'b': sub}
 
 
 def replay(ctx, case):
